@@ -122,7 +122,7 @@ type C09 struct{}
 func (e *C09) ID() string    { return "C09" }
 func (e *C09) Level() string { return "exploration" }
 func (e *C09) Rule() string {
-	return "section A (exhaustive): every single-byte perturbation (24 positions x 256 values) of each of the 31 canonical headers; section B: every canonical header followed by random suffixes of length 0..8 KiB and every truncation to 0..23 bytes; section C: seeded random 24-byte strings and two-byte perturbations. Every stream goes through Buf(b), Buf(b[:24]), Scan, ScanBuf and ReadAt, and again through Scan and ScanBuf over readers that deliver it one byte at a time, in uneven short reads, and with the last bytes together with io.EOF. Oracle: all five agree on the type and on the error class; bytes beyond 24 do not matter; ScanBuf leaves the whole stream readable; fewer than 24 bytes gives an error and no type; ErrImageTypeNotFound exactly when the type is unknown; a reported type F requires F's signature per the harness's independent table (liberal form); a header carrying exactly one documented standard signature (strict form, with the precedences CR2 and CRW over TIFF (more specific over generic), major brand among ftyp formats) must be reported as that format; where two signatures match without a documented precedence either is accepted. Non-trivial: the header is within two bytes of a canonical header; distinct = (nearest canonical header, position, result)."
+	return "section A (exhaustive): every single-byte perturbation (24 positions x 256 values) of each of the 31 canonical headers; section B: every canonical header followed by random suffixes of length 0..8 KiB and every truncation to 0..23 bytes; section C: seeded random 24-byte strings and two-byte perturbations. Every stream goes through Buf(b), Buf(b[:24]), Scan, ScanBuf and ReadAt, and again through Scan and ScanBuf over readers that deliver it one byte at a time, in uneven short reads, and with the last bytes together with io.EOF, and through Scan on seekable / ReadAt-capable readers that were already read from; suffixes include runs of the tokens the predicates look for (brands, magic numbers) behind headers whose own slots were blanked. Oracle: all five agree on the type and on the error class; bytes beyond 24 do not matter; ScanBuf leaves the whole stream readable; fewer than 24 bytes gives an error and no type; ErrImageTypeNotFound exactly when the type is unknown; a reported type F requires F's signature per the harness's independent table (liberal form); a header carrying exactly one documented standard signature (strict form, with the precedences CR2 and CRW over TIFF (more specific over generic), major brand among ftyp formats) must be reported as that format; where two signatures match without a documented precedence either is accepted. Non-trivial: the header is within two bytes of a canonical header; distinct = (nearest canonical header, position, result)."
 }
 func (e *C09) Assumptions() []string {
 	return []string{"the signature table is the harness's own, written from the format definitions cited in the package comments; JPEG 2000 is reported as image/jpeg (pinned by the existing test suite)"}
@@ -156,6 +156,23 @@ func sniffAll(c *core.Ctx, b []byte) (imagetype.ImageType, bool) {
 	rest, _ := io.ReadAll(br)
 	rs[4].t, rs[4].err = imagetype.ReadAt(mon.NewRS(b))
 	c.Rec.Eval(5)
+	// the stream handed over by a reader that has a history: 1..40 junk bytes were read from it
+	// before, and it offers Seek and ReadAt (a sniffer must classify the stream from the current
+	// position, not the start of the underlying object)
+	{
+		junk := []byte("II*\x00\x08\x00\x00\x00junkjunkjunkjunkjunkjunkjunkjunk")[:1+len(b)%40]
+		whole := append(append([]byte(nil), junk...), b...)
+		r1 := mon.NewRS(whole)
+		_, _ = io.ReadFull(r1, make([]byte, len(junk)))
+		t1, e1 := imagetype.Scan(r1)
+		br := bytes.NewReader(whole)
+		_, _ = br.Seek(int64(len(junk)), io.SeekStart)
+		t2, e2 := imagetype.Scan(br)
+		c.Rec.Eval(2)
+		if t1 != rs[0].t || (e1 == nil) != (rs[0].err == nil) || t2 != rs[0].t || (e2 == nil) != (rs[0].err == nil) {
+			c.Rec.Violation("sniff:position:Scan", fmt.Sprintf("Scan on a seekable reader positioned %d bytes into its underlying data reports %v/%v (instrumented reader) and %v/%v (bytes.Reader) but Buf(b) reports %v/%v header=%x len=%d", len(junk), t1, e1, t2, e2, rs[0].t, rs[0].err, b[:min(len(b), 24)], len(b)), map[string]any{"header_hex": fmt.Sprintf("%x", b[:min(len(b), 24)]), "len": len(b)})
+		}
+	}
 	// the same stream delivered in pieces (one byte at a time, uneven short reads, last bytes
 	// together with io.EOF): a sniffer that trusts a single Read would disagree with itself
 	for k, sched := range [][]int{{1}, {10, 3, 7, 1}, nil} {
@@ -303,6 +320,60 @@ func (e *C09) Run(c *core.Ctx, idx int) {
 			t, _ := sniffAll(c, b)
 			if t != t0 {
 				c.Rec.Violation("sniff:suffix", fmt.Sprintf("%s header: type depends on bytes after the first 24 (%v vs %v, suffix %d bytes)", ch.name, t, t0, n), map[string]any{"header_hex": fmt.Sprintf("%x", ch.h), "suffix_len": n})
+			}
+		}
+		// suffixes made of the tokens the predicates look for (brands, magic numbers), 4-byte
+		// aligned and not, behind the canonical header and behind variants of it whose own brand /
+		// magic slots were blanked (so that only bytes beyond 24 could supply the signature)
+		frags := []string{"heic", "heix", "mif1", "avif", "crx ", "msf1", "hevc", "miaf", "II*\x00", "MM\x00*", "HEAPCCDR", "CR\x02\x00", "WEBP", "ftyp", "8BPS", "<x:xmpmeta", "\xff\xd8\xff", "\x89PNG"}
+		for k := 0; k < 60; k++ {
+			h := append([]byte(nil), ch.h...)
+			if k%3 != 0 {
+				lo := r.Pick(8, 12, 16, 20)
+				for i := lo; i < lo+4 && i < 24; i++ {
+					h[i] = byte(r.Pick(0, ' ', 'x'))
+				}
+			}
+			var sfx []byte
+			if k%4 == 1 {
+				sfx = r.Bytes(r.Intn(4))
+			}
+			for j := r.Range(1, 6); j > 0; j-- {
+				sfx = append(sfx, frags[r.Intn(len(frags))]...)
+			}
+			t24, _ := sniffAll(c, h)
+			b := append(h, sfx...)
+			t, _ := sniffAll(c, b)
+			if t != t24 {
+				c.Rec.Violation("sniff:suffix", fmt.Sprintf("%s-like header: type depends on bytes after the first 24 (%v with the suffix %q, %v without)", ch.name, t, sfx, t24), map[string]any{"header_hex": fmt.Sprintf("%x", h), "suffix": string(sfx)})
+			}
+		}
+		if string(ch.h[4:8]) == "ftyp" {
+			// exhaustively: every brand token in the compatible-brand slots beyond byte 24, with the
+			// in-header slots blanked or not and the box size field covering those slots or not
+			for _, brand := range []string{"heic", "heix", "avif", "mif1", "crx ", "msf1", "hevc", "miaf"} {
+				for blank := 0; blank < 4; blank++ {
+					for _, size := range []int{-1, 28, 32, 40} {
+						for _, lead := range []string{"", "miaf", "\x00\x00\x00\x00"} {
+							h := append([]byte(nil), ch.h...)
+							if blank&1 != 0 {
+								copy(h[16:20], "    ")
+							}
+							if blank&2 != 0 {
+								copy(h[20:24], "    ")
+							}
+							if size > 0 {
+								h[0], h[1], h[2], h[3] = 0, 0, 0, byte(size)
+							}
+							t24, _ := sniffAll(c, h)
+							b := append(h, lead+brand+"\x00\x00\x00\x00mdat"...)
+							t, _ := sniffAll(c, b)
+							if t != t24 {
+								c.Rec.Violation("sniff:suffix", fmt.Sprintf("%s-like ftyp header: type depends on the brand %q after the first 24 bytes (%v with it, %v without)", ch.name, brand, t, t24), map[string]any{"header_hex": fmt.Sprintf("%x", h), "suffix": lead + brand})
+							}
+						}
+					}
+				}
 			}
 		}
 		for n := 0; n < 24; n++ {
